@@ -255,7 +255,7 @@ def partitions(tier):
 
 MUST_REACH = ["apdu_completed", "completed_despite_faults", "tag_command_error",
               "command_chained", "response_chained", "wtx", "apdu_after_failed_exchange", "failed_exchange_never_reached_the_card", "wtx_during_response_chaining", "wtx_during_command_chaining", "wtx_repeated", "wtx_with_power_level_bits", "ats_layout_varied"]
-BOUNDS = {"quick": "<=2 faults per conversation out of {command lost, response lost, response garbled} at each of the first 24 blocks; FSCI 0/2/3; command/response lengths around multiples of FSC-3 (chaining both ways, three blocks each way at FWI 11); 1-3 consecutive APDUs; 1..9 consecutive S(WTX) (more than the retry budget), S(WTX) inside a chained response; FWI 4, 7, 10, 11 and 14 (retry budgets 5, 3, 1, 0); ATS with every subset of TA(1)/TB(1)/TC(1) and a card that needs 60 % of its announced frame waiting time; Type 4A and 4B; APDU and response bytes symbolic.  Absorption is judged per block: no block hit more often than the budget",
+BOUNDS = {"quick": "<=2 faults per conversation out of {command lost, response lost, response garbled} at each of the first 24 blocks; FSCI 0/2/3; command/response lengths around multiples of FSC-3 (chaining both ways, three blocks each way at FWI 11); 1-3 consecutive APDUs; 1..9 consecutive S(WTX) (more than the retry budget), S(WTX) inside a chained response; FWI 4, 7, 10, 11 and 14 (retry budgets 5, 3, 1, 0); ATS with every subset of TA(1)/TB(1)/TC(1) and a card that needs 60 % of its announced frame waiting time; Type 4A and 4B; APDU and response bytes symbolic.  Absorption is judged per block: no block hit more often than the budget; added later: ATS layouts at FSCI 0/1/4; power level indication 0/1/3 and WTXM 1/59 in S(WTX); S(WTX) while a command is being chained; failed exchanges of which no frame reached the card",
           "thorough": "<=3 faults; FSCI 0/2/3/5/8"}
 OUTSIDE = ["CID/NAD", "extended length APDUs", "more than 24 blocks per conversation", "FSD below 256"]
 ASSUMPTIONS = ["Tt4Card follows the ISO/IEC 14443-4 PICC rules (env/tags.py)", "a garbled command is ignored by the card (reader sees a time-out)",
